@@ -192,6 +192,10 @@ func init() {
 			return nil
 		},
 		"CheckFrozen": func(ex *Exec, a []Val) Val { return nil },
+		"Par": func(ex *Exec, a []Val) Val {
+			ex.runPar(a[0].(Closure), a[1].(Closure))
+			return nil
+		},
 	}
 }
 
@@ -1163,6 +1167,7 @@ func mLock(ex *Exec, args []Val) Val {
 		ex.gopanic("deadlock", "Lock on a mutex already held by this goroutine")
 	}
 	ex.locks[p.P] = true
+	ex.logLock(p.P, true)
 	return nil
 }
 
@@ -1175,6 +1180,7 @@ func mUnlock(ex *Exec, args []Val) Val {
 		ex.gopanic("explicit", "sync: unlock of unlocked mutex")
 	}
 	delete(ex.locks, p.P)
+	ex.logLock(p.P, false)
 	return nil
 }
 
